@@ -2,32 +2,58 @@
    Statements only; every proof is `exact <lemma>`; assumptions printed.
 
    Vocabulary (Model/Gc.v): a history is a list of steps run from `init t0`;
-   `ok_from` = registrations use fresh paths (chunk paths are uuids);
+   `ok_from` = registrations use fresh paths (chunk paths are uuids) and entries
+   written into the pending file from outside never name a live chunk;
    `deletes c s x` = the data files step x physically deletes in state s;
    `schedules c s x` = the paths step x hands to schedule_deletion. *)
 From CS Require Import Base.Prelude Model.Gc Proofs.GcProofs.
 Open Scope Z_scope.
 
-(* Grace period.  Whenever a step of an admissible history deletes the file p
-   at time t, the history splits into a prefix that ended at a time <= t - grace
-   and a rest during which p was at no point referenced by the catalog
-   (every intermediate state is covered); p is unreferenced at the delete. *)
+(* Grace period, for ANY behaviour of the wall clock (ticks of either sign: the
+   clock may be stepped back between scheduling and a pass) and with entries
+   written into pending-deletions.json from outside (DiskEdit: dated in the
+   future, the past, now).  Whenever a step deletes the file p, p is not
+   referenced by the catalog and there is an entry (p, ts) with
+       ts + grace <= pass_time  (the clock reading the pass took at its filter),
+   i.e. an entry waits at least the grace period after ITS OWN timestamp, also
+   when that timestamp lies ahead of the local clock; the entry was either
+   scheduled by the compactor at reading ts when p left the catalog - and no
+   catalog state has referenced p since (every intermediate state is covered) -
+   or written from outside, p unreferenced ever since. *)
 Theorem C09_gc_after_grace :
   forall (c : gcfg) (t0 : Z) (h : list label) (x : label) (p : path),
   ok_from c (init t0) (h ++ [x]) = true ->
   In p (deletes c (runi c t0 h) x) ->
-  unref_throughout c t0 h p (now (runi c t0 h) - g_grace c) /\
-  amem N.eqb p (cat (runi c t0 h)) = false.
+  amem N.eqb p (cat (runi c t0 h)) = false /\
+  exists ts, ts + g_grace c <= pass_time c (runi c t0 h) x /\ origin_in c t0 h p ts.
 Proof. exact gc_after_grace. Qed.
 Print Assumptions C09_gc_after_grace.
 
+(* The same in the property's words when the wall clock is never stepped back:
+   the deleted file left the catalog at a clock reading at least one grace
+   period before the reading at the delete and has been unreferenced
+   throughout (or its entry was written from outside and is at least one grace
+   period old by its own timestamp). *)
+Theorem C09_gc_after_grace_monotone_clock :
+  forall (c : gcfg) (t0 : Z) (h : list label) (x : label) (p : path),
+  ok_from c (init t0) (h ++ [x]) = true ->
+  forallb tick_nonneg h = true ->
+  In p (deletes c (runi c t0 h) x) ->
+  exists ts, ts + g_grace c <= now (runi c t0 h) /\
+    ((unref_throughout c t0 h p (now (runi c t0 h) - g_grace c) /\ scheduled_in c t0 h p) \/
+     foreign_in c t0 h p ts).
+Proof. exact gc_after_grace_monotone. Qed.
+Print Assumptions C09_gc_after_grace_monotone_clock.
+
 (* Nothing else is ever deleted, part 1: a deleted file was handed to
    schedule_deletion by an earlier step (a compaction swap that removed it from
-   the catalog, or a retention pass). *)
+   the catalog, or a retention pass), or named by an entry written into the
+   pending file from outside. *)
 Theorem C09_only_scheduled_deleted :
   forall (c : gcfg) (t0 : Z) (h : list label) (x : label) (p : path),
   ok_from c (init t0) (h ++ [x]) = true ->
-  In p (deletes c (runi c t0 h) x) -> scheduled_in c t0 h p.
+  In p (deletes c (runi c t0 h) x) ->
+  scheduled_in c t0 h p \/ exists ts, foreign_in c t0 h p ts.
 Proof. exact deleted_was_scheduled. Qed.
 Print Assumptions C09_only_scheduled_deleted.
 
@@ -67,7 +93,7 @@ Print Assumptions C09_persisted_then_deleted.
 Theorem C09_retention_only_old :
   forall (c : gcfg) (s : st) (p : path),
   amem N.eqb p (cat s) = true -> amem N.eqb p (cat (step c s Retention)) = false ->
-  exists mn mx, In (p, (mn, mx)) (cat s) /\ mx < ret_cutoff c (now s).
+  exists mn mx, In (p, (mn, mx)) (cat s) /\ mx < ret_cutoff c (bclock s).
 Proof. exact retention_only_old. Qed.
 Print Assumptions C09_retention_only_old.
 
@@ -86,7 +112,7 @@ Theorem C09_catalog_removal_causes :
   forall (c : gcfg) (s : st) (x : label) (p : path),
   amem N.eqb p (cat s) = true -> amem N.eqb p (cat (step c s x)) = false ->
   (exists srcs tgt, x = Swap srcs tgt /\ In p srcs) \/
-  (x = Retention /\ exists mn mx, In (p, (mn, mx)) (cat s) /\ mx < ret_cutoff c (now s)).
+  (x = Retention /\ exists mn mx, In (p, (mn, mx)) (cat s) /\ mx < ret_cutoff c (bclock s)).
 Proof. exact catalog_removal_causes. Qed.
 Print Assumptions C09_catalog_removal_causes.
 
